@@ -43,7 +43,15 @@ def labels(c, var=None):
     spec's relabelling relation on the integer labels still describes the call), contiguous or
     as every second element of a larger vector."""
     dtype, scale, layout = var or ("int64", 1, "C")
-    v = np.array(c, dtype=float) * scale
+    if scale == "mid":
+        # (seed round 7) another injective, order-preserving renaming: the smallest label becomes 1, the
+        # largest k (the number of distinct labels), the others rank + 1/4 - a vector that passes a
+        # "labels already are 1..k" test on its extremes although its middle labels are fractional
+        u = sorted(set(c))
+        ren = {x: (1.0 if i == 0 else float(len(u)) if i == len(u) - 1 else i + 1.25) for i, x in enumerate(u)}
+        v = np.array([ren[x] for x in c], dtype=float)
+    else:
+        v = np.array(c, dtype=float) * scale
     out = v.astype(dtype)
     if not np.array_equal(out.astype(float), v):
         raise core.MachineryError("lossy cast of a label vector to %s" % dtype)
@@ -96,6 +104,8 @@ def _readback(p, scale):
     it is not (modularity_und_sign returns ranks 1..k): either map is injective on the vector, and
     the spec reads a partition-valued output only up to renaming (SamePartition)"""
     p = np.asarray(p, dtype=float)
+    if scale == "mid":                 # labels 1, rank + 1/4, k: four times the label is an injective integer code
+        return encode.vec_int(p * 4)
     v = p / scale
     return encode.vec_int(v if np.all(v == np.round(v)) else p)
 
@@ -282,7 +292,7 @@ def ci_variant(rng, p_plain):
     if rng.random() < p_plain:
         return ["int64", 1, "C"]
     dt = rng.choice(["int64", "int32", "float64", "float64"])
-    return [dt, rng.choice([1, 1, 0.5]) if dt == "float64" else 1, rng.choice(["C", "stride"])]
+    return [dt, rng.choice([1, 1, 0.5, "mid"]) if dt == "float64" else 1, rng.choice(["C", "stride"])]
 
 
 def relabel_job(rng, fn, src, W, cs1, cs2, typ=None, p_plain=0.5):
